@@ -296,3 +296,18 @@ Proof.
   rewrite split_from_app, (split_from_space_fresh _ b Hq He), app_assoc.
   f_equal. rewrite <- (app_nil_r a) at 3. rewrite split_from_app. reflexivity.
 Qed.
+
+(** ... in particular after every message kvarnctl encodes: what follows the space after it is
+    split on its own and cannot reach back into the message. *)
+Lemma split_encoded_prefix l : forall b,
+  quoted_str_split (join_sp (map encode_quoted_str l) ++ c_space :: b) = l ++ quoted_str_split b.
+Proof.
+  unfold quoted_str_split. induction l as [|a l IH]; intros b.
+  - cbn [map join_sp app]. rewrite split_from_space_fresh by reflexivity. reflexivity.
+  - destruct l as [|a' r].
+    + cbn [map join_sp]. rewrite split_encoded_then_space. reflexivity.
+    + change (join_sp (map encode_quoted_str (a :: a' :: r)))
+        with (encode_quoted_str a ++ [c_space] ++ join_sp (map encode_quoted_str (a' :: r))).
+      rewrite <- !app_assoc. cbn [app]. rewrite split_encoded_then_space.
+      cbn [app]. f_equal. apply IH.
+Qed.
